@@ -9,6 +9,8 @@ def dump(node) -> str:
     """Position-free structural rendering (used to compare expressions semantically-by-shape)."""
     if node is None:
         return "None"
+    if isinstance(node, (list, tuple)):
+        return "[" + ", ".join(dump(n) for n in node) + "]"
     return ast.dump(node, annotate_fields=False, include_attributes=False)
 
 
